@@ -198,3 +198,25 @@ Proof.
   rewrite NL. replace (S (nz g) - (1 + nz g - ktop g i j))%nat with (ktop g i j) by lia.
   pose proof (H i j Hi Hj) as S. assert (Q : qlt (gsurf g i j - bot g (ktop g i j)) snap = false) by qc_lra. rewrite Q. reflexivity.
 Qed.
+
+(** ** rectgeo reads its grid: in the model this holds by construction (a Gallina function returns a value and
+    cannot change its argument; the result depends on nothing but the arguments).  The content of these
+    statements is on the implementation side: the oracle snapshots the grid before and after the call, calls
+    twice on the same grid, and compares with the result of a fresh interpreter. *)
+Lemma rectgeo_function_of_grid_lemma {K} keqb heading fxp fx2 (g1 g2 : grid K) obk av rminact snap atm' nm' :
+  blocks g1 = blocks g2 -> conns g1 = conns g2 -> (forall k, cnames g1 k = cnames g2 k) ->
+  (forall k, cnames g1 k = cnames g2 k) /\
+  (g1 = g2 -> rectgeo K keqb heading fxp fx2 g1 obk av rminact snap atm' nm' = rectgeo K keqb heading fxp fx2 g2 obk av rminact snap atm' nm').
+Proof. intros _ _ H. split; [exact H|]. intros ->. reflexivity. Qed.
+
+(** ** the gravity cosines of the generated (hence of the regenerated) grid *)
+Lemma vertical_dircos_lemma g l : link_shape g l -> ldir l = 3%nat -> ldcn l = neg1 /\ ldcr l = 1.
+Proof.
+  intros S D. destruct S as [k i j l Hk Hi Hj Hh E | k i j Hk Hi Hj H1 H2 | k i j Hk Hi Hj H1 H2]; [|cbn in D; discriminate|cbn in D; discriminate].
+  apply vlink_cases in E. destruct E as [[E [A ->]]|[[E [A ->]]|[E ->]]]; cbn; auto.
+Qed.
+Lemma horizontal_dircos_level_lemma g k i j : zc g k (S i) j = zc g k i j -> ldcn (xlink g k i j) = 0.
+Proof. intros E. cbn [xlink ldcn]. rewrite E. ring. Qed.
+Lemma regenerated_dircos_lemma {K} (f nm : cid -> K) g' g : rect_conns f g' = rect_conns nm g ->
+  map (fun c => (ka c, kb c, kdcn c, kdcr c)) (rect_conns f g') = map (fun c => (ka c, kb c, kdcn c, kdcr c)) (rect_conns nm g).
+Proof. intros ->. reflexivity. Qed.
